@@ -206,14 +206,15 @@ func enumPathsGen(f *ssa.Function, start *ssa.BasicBlock, target ssa.Instruction
 
 // knownEmpty: on this path a dominating decision says len(v) == 0.
 func (p *pathCtx) knownEmpty(v ssa.Value) bool {
-	cv := canon(v)
+	cv := canonAlong(v, p.pred)
 	lenv := "call builtin len(" + cv + ")"
 	for _, d := range p.decs {
 		b, ok := d.Cond.(*ssa.BinOp)
 		if !ok {
 			continue
 		}
-		if canon(b.X) != lenv {
+		// the tested slice may be a local that merges several lists: compare what it is on this path
+		if canonAlong(b.X, p.pred) != lenv {
 			continue
 		}
 		c, okc := constInt(b.Y)
